@@ -36,8 +36,9 @@ ASSUMPTIONS = [
   "characters exact; attributes are compared on non-blank characters only and colour as one of eight classes",
   "roll-up row numbers are asserted for base row 15 only (ttconv documents that it anchors roll-up at row 15); attributes set by a "
   "roll-up PAC for rows 5-11, after CR without PAC, and by back-to-back mid-row codes other than colour+italics are not asserted",
-  "a pop-on load that starts while non-displayed memory still holds an older caption (no ENM) is a labelled class whose displayed "
-  "text is not asserted (no encoder relies on it)",
+  "a pop-on load that starts while non-displayed memory still holds an older caption (no ENM; EOC swaps the memories) is a labelled "
+  "class: asserted in full when the older caption occupies other rows than the load addresses (the load adds rows to it), unasserted "
+  "from that point on when rows may be shared (ttconv merges overlapping cells differently from a cell grid; no encoder relies on it)",
   "not generated: text mode, flash, DER, background attributes, overwriting displayed cells, two PACs on one row, "
   "a caption of another style starting while the previous one is still displayed",
 ]
